@@ -1,9 +1,12 @@
 (* SPEC for C05, sentence by sentence of the property statement, as a checker that runs on the
-   OBSERVATIONS of a program (of the implementation, or of the model).  It never looks at a runtime-context
-   stack or at how StartSpan computes anything: "the span active on the calling thread" is what
-   Tracer::GetCurrentSpan() answered just before the call, "the span of an explicit Context" is what
-   trace::GetSpan / IsRootSpan answered for it, "the sampler's decision" is what the sampler returned
-   (the harness wraps the configured sampler and the id generator and reports their calls).
+   OBSERVATIONS of a program (of the implementation, or of the model).  It never looks at how StartSpan computes
+   anything.  "The span active on the calling thread" and "the span / root marker of an explicit Context" are
+   computed by the checker itself from the program's script: it replays the Scope / WithActiveSpan / Attach /
+   Detach / release and context-construction operations on the abstract machine of the C10 SPEC (per-thread lists of
+   context names, association lists) and compares what Tracer::GetCurrentSpan() / trace::GetSpan / IsRootSpan
+   reported with it (clauses active_span, explicit_context); parentage is judged against the checker's own answer.
+   "The sampler's decision" is what the sampler returned (the harness wraps the configured sampler and the id
+   generator and reports their calls).
 
    The property's sentences and the clause tags:
      S1  parent = explicit SpanContext, else explicit Context, else active span, in that order     parent_precedence:*
@@ -12,8 +15,10 @@
      S4  sampled flag = the sampler's decision                                                       sampled_flag_equals_decision:*
      S5  only W3C level-1 flag bits                                                                   only_level1_flag_bits:*
      S6  trace state = the sampler's if given, else the parent's                                      tracestate_choice:*
-     S7  a span that is not recorded is never exported, yet exposes this valid context                not_recorded:*  export:*  context_stable:*  *)
+     S7  a span that is not recorded is never exported, yet exposes this valid context                not_recorded:*  export:*  context_stable:*
+     S1' the active span is the one of the innermost open scope of the calling thread               active_span:*  explicit_context:*  context_ops:*  *)
 From V Require Export C05.Model.
+From V Require C10.Spec.
 Local Open Scope string_scope.
 Local Open Scope list_scope.
 Local Open Scope Z_scope.
@@ -184,36 +189,115 @@ Definition spec_end (k : nat) (s : sspan) (xs : list xrec) : list tok :=
 
 Definition ss_end (s : sspan) : sspan := mk_ss (ss_ctx s) (ss_psid s) (ss_rec s) true (ss_attrs s).
 
+(* ------------------------------------------------------------------ which span is active: the checker's own machine *)
+(* The checker does not believe what the implementation reports about the active span.  It replays the context
+   operations of the program (Scope / WithActiveSpan, Attach, Detach, release of tokens and scopes, construction of
+   contexts) on the abstract machine of the C10 SPEC (coq/C10/Spec.v): a context is an association list that never
+   changes, named by order of creation; every thread has a plain LIST of names (innermost first); a token remembers
+   its name; releasing a token or scope on a thread removes everything above and including its most recent
+   occurrence on THAT thread's list, and does nothing when it is not there.  Contexts and tokens are shared between
+   the threads, the lists are per thread. *)
+Record cstate := mk_cs {
+  cs_pool : list C10.Spec.actx;        (* 0 = Context() *)
+  cs_toks : list C10.Spec.stok;
+  cs_stacks : list (list nat);         (* one per thread *)
+  cs_tbl : list sspan                  (* the span table *)
+}.
+Definition cstate0 (nthreads : nat) : cstate := mk_cs [C10.Spec.actx0] [] (repeat [] nthreads) [].
+
+Definition cview (s : cstate) (t : nat) : C10.Spec.sstate :=
+  C10.Spec.mk_s (cs_pool s) (nth t (cs_stacks s) []) (cs_toks s) "".
+Definition cunview (s : cstate) (t : nat) (a : C10.Spec.sstate) : cstate :=
+  mk_cs (C10.Spec.s_pool a) (C10.Spec.s_toks a) (set_nth t (C10.Spec.s_stack a) (cs_stacks s)) (cs_tbl s).
+Definition with_tbl (s : cstate) (tbl : list sspan) : cstate := mk_cs (cs_pool s) (cs_toks s) (cs_stacks s) tbl.
+
+(* the context of table entry i; -1 = no span *)
+Definition ctx_of_tbl (tbl : list sspan) (i : Z) : span_ctx :=
+  if i <? 0 then ctx_invalid
+  else match nth_error tbl (Z.to_nat i) with Some e => ss_ctx e | None => ctx_invalid end.
+
+(* what context [name] says about its span and its root marker *)
+Definition binds_of (s : cstate) (name : nat) : list (bytes * value) := C10.Spec.a_binds (nth name (cs_pool s) C10.Spec.actx0).
+Definition span_in (s : cstate) (name : nat) : span_ctx :=
+  ctx_of_tbl (cs_tbl s) (span_of (C10.Spec.assoc span_key (binds_of s name))).
+Definition root_in (s : cstate) (name : nat) : bool :=
+  match C10.Spec.assoc root_key (binds_of s name) with
+  | (KB, n) => negb (n =? 0)
+  | _ => false
+  end.
+
+(* the span active on thread t: the one bound in the innermost context of its list (Context() when the list is empty) *)
+Definition exp_active (s : cstate) (t : nat) : span_ctx := span_in s (C10.Spec.scur (cview s t)).
+(* what an explicit Context parent carries *)
+Definition exp_cx (s : cstate) (t : nat) (p : parent_opt) : option (span_ctx * bool) :=
+  match p with
+  | PCx r => let name := C10.Spec.sres (cview s t) r in Some (span_in s name, root_in s name)
+  | _ => None
+  end.
+
+Definition cx_eqb (a b : option (span_ctx * bool)) : bool :=
+  match a, b with
+  | Some (c, r), Some (c', r') => ctx5_eqb c c' && Bool.eqb r r'
+  | None, None => true
+  | _, _ => false
+  end.
+
+(* which context operations are executed (their span references exist) *)
+Definition scop_ok (nspans : nat) (o : op) : bool :=
+  let ref_ok n := (0 <=? n) && (n <? Z.of_nat nspans) in
+  match o with
+  | OSet _ _ (KS, n) => ref_ok n
+  | OSet _ _ (KC, _) | OSet _ _ (KG, _) | OSet _ _ (KD, _) => false
+  | OSet _ _ _ => true
+  | OScope n => ref_ok n
+  | OAttach _ | ODetach _ | OKill _ => true
+  | _ => false
+  end.
+
+Definition chunk_toks (cs : list C10.Spec.chunk) : list tok := flat_map fst cs.
+
 (* ------------------------------------------------------------------ a whole program *)
-Definition spec_op (cf : cfg) (tbl : list sspan) (o : sop) (ob : op_obs) : list sspan * list tok :=
+Definition spec_op (cf : cfg) (s : cstate) (t : nat) (o : sop) (ob : op_obs) : cstate * list tok :=
+  let tbl := cs_tbl s in
   match o, ob with
   | SStart p gsid gtid scr, OStart so =>
-      (tbl ++ [sspan_of_start cf p scr so], spec_start cf p gsid gtid scr so ++ spec_fresh cf tbl p so)
+      (* the parent is decided from the checker's own active span / context contents, not from the report *)
+      let ea := exp_active s t in
+      let ec := exp_cx s t p in
+      let so' := mk_so ea ec (so_new so) (so_rec so) (so_sid_calls so) (so_tid_calls so) (so_samp so) in
+      (with_tbl s (tbl ++ [sspan_of_start cf p scr so']),
+       check (ctx5_eqb (so_active so) ea) "active_span:not_the_innermost_open_scope" ++
+       check (cx_eqb (so_cx so) ec) "explicit_context:span_or_root_marker_misread" ++
+       spec_start cf p gsid gtid scr so' ++ spec_fresh cf tbl p so')
   | SEnd k, OEnd xs =>
       match nth_error tbl k with
-      | Some s => (set_nth k (ss_end s) tbl, spec_end k s xs)
-      | None => (tbl, fail "harness:end_of_unknown_span")
+      | Some e => (with_tbl s (set_nth k (ss_end e) tbl), spec_end k e xs)
+      | None => (s, fail "harness:end_of_unknown_span")
       end
   | SEnd k, OBadRef =>
       match nth_error tbl k with
-      | Some _ => (tbl, fail "harness:badref")
-      | None => (tbl, [])
+      | Some _ => (s, fail "harness:badref")
+      | None => (s, [])
       end
-  | SWrap c, OCtxOut [] => (tbl ++ [mk_ss c (zeros 8) false false []], [])
-  | SActive, OActive _ => (tbl, [])
-  | SCtx _, OCtxOut _ => (tbl, [])
-  | SCtx _, OBadRef => (tbl, [])
-  | _, _ => (tbl, fail "obs:operation_kind")
+  | SWrap c, OCtxOut [] => (with_tbl s (tbl ++ [mk_ss c (zeros 8) false false []]), [])
+  | SActive, OActive c => (s, check (ctx5_eqb c (exp_active s t)) "active_span:not_the_innermost_open_scope")
+  | SCtx co, OCtxOut l =>
+      if scop_ok (length tbl) co then
+        let (a, cs) := C10.Spec.sstep (cview s t) co in
+        (cunview s t a, check (toks_eqb l (chunk_toks cs)) "context_ops:detach_result")
+      else (s, fail "harness:badref_not_reported")
+  | SCtx co, OBadRef => if scop_ok (length tbl) co then (s, fail "harness:badref") else (s, [])
+  | _, _ => (s, fail "obs:operation_kind")
   end.
 
-Fixpoint spec_ops (cf : cfg) (tbl : list sspan) (ops : list (nat * sop)) (obs : list op_obs) : list sspan * list tok :=
+Fixpoint spec_ops (cf : cfg) (s : cstate) (ops : list (nat * sop)) (obs : list op_obs) : cstate * list tok :=
   match ops, obs with
-  | [], [] => (tbl, [])
-  | (_, o) :: ops', ob :: obs' =>
-      let (tbl1, f) := spec_op cf tbl o ob in
-      let (tbl2, fs) := spec_ops cf tbl1 ops' obs' in
-      (tbl2, f ++ fs)
-  | _, _ => (tbl, fail "obs:operation_count")
+  | [], [] => (s, [])
+  | (t, o) :: ops', ob :: obs' =>
+      let (s1, f) := spec_op cf s t o ob in
+      let (s2, fs) := spec_ops cf s1 ops' obs' in
+      (s2, f ++ fs)
+  | _, _ => (s, fail "obs:operation_count")
   end.
 
 (* the harness ends every span in table order: exactly the recording spans still open are exported, in order *)
@@ -238,6 +322,6 @@ Fixpoint spec_dump (tbl : list sspan) (d : list (span_ctx * bool)) : list tok :=
   | _, _ => fail "obs:dump_length"
   end.
 
-Definition spec_case (cf : cfg) (ops : list (nat * sop)) (o : case_obs) : list tok :=
-  let (tbl, f) := spec_ops cf [] ops (co_ops o) in
-  f ++ spec_finish 0 tbl (co_fin o) ++ spec_dump tbl (co_dump o).
+Definition spec_case (cf : cfg) (nthreads : nat) (ops : list (nat * sop)) (o : case_obs) : list tok :=
+  let (s, f) := spec_ops cf (cstate0 nthreads) ops (co_ops o) in
+  f ++ spec_finish 0 (cs_tbl s) (co_fin o) ++ spec_dump (cs_tbl s) (co_dump o).
